@@ -18,9 +18,16 @@ NS_X = 'urn:verif:foreign'
 _GEN = {}
 
 
+# identifiers are atoms in SigDoc.tla; the strings drawn for them may extend one another ("a" and "a-x"): style of the case
+IDSTYLE = {'plain': {}, 'extends_a': {'x': 'a-x'}, 'extends_r': {'x': 'r-x'}}
+_IDMAP = {}
+
+
 def render(tree, n, sigs, templates=False, alg='sha256'):
     """bytes of node n as a function of the abstract fields only"""
-    nd = tree[n]
+    nd = dict(tree[n])
+    if nd.get('id') in _IDMAP:
+        nd['id'] = _IDMAP[nd['id']]
     inner = ''.join(render(tree, c, sigs, templates, alg) for c in nd['kids'])
     k = nd['kind']
     now = spc.now()
@@ -44,7 +51,7 @@ def render(tree, n, sigs, templates=False, alg='sha256'):
     if k == 'Sig':
         if nd['orig'] == 'X':
             # a signature the attacker made himself over the forged element: well-formed, never valid under the IdP key
-            base = sb.signature_template('x', alg).replace('<ds:DigestValue/>', '<ds:DigestValue>AAAAAAAAAAAAAAAAAAAAAAAAAAA=</ds:DigestValue>') \
+            base = sb.signature_template(_IDMAP.get('x', 'x'), alg).replace('<ds:DigestValue/>', '<ds:DigestValue>AAAAAAAAAAAAAAAAAAAAAAAAAAA=</ds:DigestValue>') \
                 .replace('<ds:SignatureValue/>', '<ds:SignatureValue>QUJDREVGR0hJSktMTU5PUFFSU1RVVldYWVo=</ds:SignatureValue>')
         elif templates:
             base = sb.signature_template('a' if nd['orig'] == 'A' else 'r', alg)
@@ -115,13 +122,18 @@ def replay(case):
     tree = dict((nd['n'], nd) for nd in case['tree'])
     alg = case.get('alg', 'sha256')
     gdoc, sigs = genuine(case['level'], alg)
-    doc = render(tree, case['root'], sigs)
+    _IDMAP.clear()
+    _IDMAP.update(IDSTYLE[case.get('idstyle', 'plain')])
+    try:
+        doc = render(tree, case['root'], sigs)
+    finally:
+        _IDMAP.clear()
     if case['edits'] == 0 and doc != gdoc:
         raise fw.Machinery('rendering of the unedited tree differs from the genuine document')
     out = {'doc': doc, 'tool_mismatch': [], 'cfg': []}
     # the stand-in against the tool verdicts TLC computed (conformance of the executable tool model)
     for t in case['tool']:
-        got = tool_verdict(doc, t['k'], t['i'])
+        got = tool_verdict(doc, t['k'], IDSTYLE[case.get('idstyle', 'plain')].get(t['i'], t['i']))
         if got != t['ok']:
             out['tool_mismatch'].append({'k': t['k'], 'i': t['i'], 'tlc': t['ok'], 'standin': got})
     plain_doc = doc
@@ -190,6 +202,7 @@ def main():
     twins = []
     for k, c in enumerate(cases):
         c['alg'] = algs[(k + chk.seed) % len(algs)]
+        c['idstyle'] = ('plain', 'extends_a', 'extends_r')[(k // len(algs) + chk.seed) % 3]
         if c['level'] == 'assertion':
             tree = dict((nd['n'], nd) for nd in c['tree'])
             rootnd = tree[c['root']]
@@ -215,7 +228,7 @@ def main():
         tool_checked += len(case['tool'])
         for r in out['cfg']:
             scn = {'level': case['level'], 'edits': case['edits'], 'shape': sh, 'cfg': r['cfg'], 'enc': case.get('enc') or 0,
-                   'alg': case.get('alg')}
+                   'alg': case.get('alg'), 'idstyle': case.get('idstyle', 'plain')}
             chk.count(scn, nontrivial=r['mustReject'] or r['mustAccept'])
             accepted = r['verdict'] == 'accept'
             nacc += accepted
